@@ -132,7 +132,8 @@ theorem T_repeatDocGenFromInt_exact (clone : Go.Doc → String → Go.Doc × Opt
   rw [fromInt_loop clone doc ec name _ (fun i _ => hc _) [] []]
   · simp [cloneDocs, cloneCtxs]
   · intro i docs ecs
-    simp only [T_EvalContext_Clone_eq] <;> (split <;> rfl)
+    simp only [T_EvalContext_Clone_eq]
+    cases (clone doc (name ++ "=" ++ toString i)).2 <;> rfl
 
 /-- … and the first error of `Clone` is returned -/
 theorem T_repeatDocGenFromInt_cloneErr (clone : Go.Doc → String → Go.Doc × Option Err) (doc : Go.Doc) (ec : Go.Ctx)
@@ -151,7 +152,8 @@ theorem T_repeatDocGenFromInt_cloneErr (clone : Go.Doc → String → Go.Doc × 
   simp only []
   rw [hsplit, fromInt_loop_err clone doc ec name _ _ _ e ?_ herr [] []]
   · intro i docs ecs
-    simp only [T_EvalContext_Clone_eq] <;> (split <;> rfl)
+    simp only [T_EvalContext_Clone_eq]
+    cases (clone doc (name ++ "=" ++ toString i)).2 <;> rfl
   · intro i hi
     obtain ⟨n, hn, rfl⟩ := List.mem_map.1 hi
     exact hpre n (List.mem_range.1 hn)
@@ -408,7 +410,7 @@ theorem T_repeatDocGenFromMap_exact (clone : Go.Doc → String → Go.Doc × Opt
           | rfl
           | (cases repeatDocGenFromInt' clone d _ ("$repeat:" ++ name) c with
              | error e => rfl
-             | ok p => rfl)
+             | ok p => obtain ⟨ds, es, err⟩ := p; cases err <;> rfl)
     | _ => rfl
 
 theorem repeatDocGenFromMap_on (clone : Go.Doc → String → Go.Doc × Option Err) (doc : Go.Doc)
@@ -484,7 +486,7 @@ theorem repeatDocList_on (clone : Go.Doc → String → Go.Doc × Option Err) (d
   | error e => rfl
   | ok p =>
     obtain ⟨v, rest⟩ := p
-    simp only [Bkl.ok_bind, ne_null_eq_not_isNull]
+    simp only [Bkl.ok_bind, beq_null_eq_isNull]
     by_cases hv : v.isNull = true
     · simp only [hv]
       exact ⟨[doc], [ec], rfl, by simp [hdata], rfl⟩
